@@ -4,6 +4,7 @@ witness, proved by evaluation of the model (`decide`).  The same witness is repl
 code by the check of the property on every run.
 -/
 import MosaikModel.Tiered
+import MosaikModel.Sched
 namespace Mosaik.Findings
 open Mosaik TI
 
@@ -20,5 +21,28 @@ theorem c08_mixed_cutoff_unordered :
     let a : TI := ⟨2, 2, [0, 1]⟩
     let b : TI := ⟨2, 1, [0, 1]⟩
     gt? a b = some true ∧ gt? b a = some true := by decide
+
+end Mosaik.Findings
+
+namespace Mosaik.Findings
+open Mosaik
+
+/-- C17-instant-too-slow (D13): A → B, rt_factor 1, every reply arrives without any real time passing
+between the step request and the reply (no `tick` between a `deps` and the replies of that step), and
+yet `rt_check` reports B's step at time 0 as too slow: it could only begin at clock 1. -/
+def d13Cfg : Cfg :=
+  { sims := [ { ty := .timeBased, next0 := [[0]], outReq := [(0, 0)], succs := [(1, ⟨1, 1, [0]⟩)],
+                push := [((0, 0), 1, ⟨1, 1, [0]⟩, (0, 0))] },
+              { ty := .timeBased, next0 := [[0]], inputDelays := [(0, ⟨1, 1, [0]⟩)] } ],
+    until_ := 2, lazy_ := true, useCache := false, rt := some 1 }
+
+def d13Run : List Action :=
+  [.start 0, .start 1, .deps 0, .stepReply 0 (.int 1), .dataReply 0 { data := [((0, 0), some 7)] },
+   .tick 1, .wake 0, .deps 1, .stepReply 1 (.int 1)]
+
+theorem c17_instant_too_slow :
+    ((exec d13Cfg (initState d13Cfg) d13Run).map fun s =>
+      (s.failed.isNone, s.clock, s.log.any fun e => match e with | .rtWarn 1 => true | _ => false)) = some (true, 1, true) := by
+  decide
 
 end Mosaik.Findings
